@@ -14,6 +14,8 @@ THEOREMS = [
     "Pedal.SandboxExec.c04_normal_run_reports_nothing",
     "Pedal.SandboxExec.c04_blocked_features_reported",
     "Pedal.SandboxExec.c04_history",
+    "Pedal.SandboxExec.c04_ladder_depth_independent",
+    "Pedal.SandboxExec.c04_contained_when_nested",
     "Pedal.SandboxExec.c04_contained_partial",
     "Pedal.SandboxExec.c04_contained_full_of_no_excluded",
     "Pedal.SandboxExec.c04_contained_counterexample",
@@ -39,7 +41,18 @@ NOTES = [
     "__import__ that reaches _import is exercised, not modelled",
     "c04_history imports C05's stack invariant as the hypothesis StacksRestored (discharged in PedalProofs/C05.lean)",
     "section line offsets (Submission.line_offsets) are not modelled - C17 covers them; histories use no sections",
-    "time limits / threaded execution are C14's: every execution here is threaded=False",
+    "time limits are C14's. THREADED executions that end by themselves (sandbox.threaded = True, threaded=True "
+    "passed, only the imports of student files threaded) are not modelled but SAMPLED: each is compared with the "
+    "model's answer for the same history unthreaded and judged by the oracle (a BaseException that is neither "
+    "Exception nor SystemExit is outside the statement and, in a worker thread, CPython's business: not compared)",
+    "NESTED executions (started through an instructor hook while another execution is in progress on the same "
+    "sandbox) are modelled (executeN / runN); c04_contained_when_nested: the call returns at any depth of the "
+    "stacks; exception slot and feedbacks of nested trees are compared through the driver (nhist), not proved; the "
+    "sandbox has ONE exception slot: after an outer execution that ends normally it holds the failure of a nested "
+    "one (modelled, and the oracle's 'no exception after a normal end' clause is skipped and counted there)",
+    "odd exception OBJECTS: falsy / zero-length / equal-to-everything / unhashable instances are ordinary "
+    "descriptors for the model (nothing in it tests an exception's truth or equality - that the code does not "
+    "either is what the generator samples); an exception whose truth test RAISES is the hazard truthRaises, probed",
     "the model has no notion of SIZE (inputs consumed, output printed, traceback depth, message / argument / source "
     "length) nor of the report's formatter: its answer depends on the termination descriptor only. That the real code "
     "is equally indifferent is SAMPLED by the size sweep of the correspondence / search (limits read from the tree "
